@@ -32,18 +32,33 @@ impl StateStorage {
         self.rawdata.resize(size, 0)
     }
     fn get_state(&self, size: u64) -> &[RawVal] {
+        #[cfg(mimium_verif)]
+        assert!(
+            self.pos + size as usize <= self.rawdata.len(),
+            "verif: state read out of bounds"
+        );
         unsafe {
             let head = self.rawdata.as_ptr().add(self.pos);
             slice::from_raw_parts(head, size as _)
         }
     }
     fn get_state_mut(&mut self, size: usize) -> &mut [RawVal] {
+        #[cfg(mimium_verif)]
+        assert!(
+            self.pos + size <= self.rawdata.len(),
+            "verif: state write out of bounds"
+        );
         unsafe {
             let head = self.rawdata.as_mut_ptr().add(self.pos);
             slice::from_raw_parts_mut(head, size as _)
         }
     }
     fn get_as_ringbuffer(&mut self, size_in_samples: u64) -> Ringbuffer<'_> {
+        #[cfg(mimium_verif)]
+        assert!(
+            self.pos + 2 + size_in_samples as usize <= self.rawdata.len(),
+            "verif: delay state out of bounds"
+        );
         let data_head = unsafe { self.rawdata.as_mut_ptr().add(self.pos) };
         Ringbuffer::new(data_head, size_in_samples)
     }
@@ -589,6 +604,8 @@ impl Machine {
         // log::trace!("upper base:{}, upvalue:{}", upper_base, offset);
         let abs_pos = Self::get_upvalue_offset(upper_base, ov);
         let end = abs_pos + size as usize;
+        #[cfg(mimium_verif)]
+        assert!(end <= self.stack.len(), "verif: open upvalue out of bounds");
         let slice = unsafe {
             let vstart = self.stack.as_slice().as_ptr().add(abs_pos);
             slice::from_raw_parts(vstart, size as usize)
@@ -1187,6 +1204,11 @@ impl Machine {
                     };
                 }
                 Instruction::GetGlobal(dst, gid, size) => {
+                    #[cfg(mimium_verif)]
+                    assert!(
+                        gid as usize + size as usize <= self.global_vals.len(),
+                        "verif: global read out of bounds"
+                    );
                     let gvs = unsafe {
                         let vstart = self.global_vals.as_ptr().offset(gid as _);
                         debug_assert!(!vstart.is_null());
@@ -1196,6 +1218,11 @@ impl Machine {
                     self.set_stack_range(dst as i64, gvs)
                 }
                 Instruction::SetGlobal(gid, src, size) => {
+                    #[cfg(mimium_verif)]
+                    assert!(
+                        gid as usize + size as usize <= self.global_vals.len(),
+                        "verif: global write out of bounds"
+                    );
                     let gvs = unsafe {
                         let vstart = self.global_vals.as_mut_ptr().offset(gid as _);
                         debug_assert!(!vstart.is_null());
@@ -1674,6 +1701,38 @@ impl Machine {
         // 0 is always base pointer to the main function
         self.base_pointer += 1;
         self.execute(0, None)
+    }
+}
+
+/// Accessors used only by the out-of-tree verification tooling (`--cfg mimium_verif`).
+#[cfg(mimium_verif)]
+impl Machine {
+    pub fn verif_state_words(&self) -> &[u64] {
+        &self.global_states.rawdata
+    }
+    pub fn verif_state_words_mut(&mut self) -> &mut Vec<u64> {
+        &mut self.global_states.rawdata
+    }
+    pub fn verif_state_pos(&self) -> usize {
+        self.global_states.pos
+    }
+    pub fn verif_global_vals(&self) -> &[u64] {
+        &self.global_vals
+    }
+    pub fn verif_stack(&self) -> &[u64] {
+        &self.stack
+    }
+    pub fn verif_base_pointer(&self) -> u64 {
+        self.base_pointer
+    }
+    pub fn verif_closure_state_words(&self) -> Vec<Vec<u64>> {
+        self.closures
+            .values()
+            .map(|c| c.state_storage.rawdata.clone())
+            .collect()
+    }
+    pub fn verif_closure_state_pos(&self) -> Vec<usize> {
+        self.closures.values().map(|c| c.state_storage.pos).collect()
     }
 }
 
